@@ -183,11 +183,13 @@ def f_walk(acc, term):
 
 
 def qall_line(q):
-    return 'qall oids=%s bounds=%s serials=%s hsizes=%s windows=%s fwindows=%s iters=%s linv=%s' % (
+    return 'qall oids=%s bounds=%s serials=%s hsizes=%s windows=%s fwindows=%s swindows=%s iters=%s linv=%s' % (
         ','.join(hx(o) for o in q['oids']), ','.join(hx(b) for b in q['bounds']),
         ','.join(hx(s) for s in q['serials']), ','.join(str(n) for n in q['hsizes']),
         ','.join('%d:%d' % w for w in q['windows']),
         ','.join('%s:%d:%d' % (tok(u), f, l) for u, f, l in q['fwindows']),
+        ','.join('%s:%s:%s:%d:%d' % tuple(['*' if x is None else tok(x) for x in (u, d, e)] + [f, l])
+                 for u, d, e, f, l in q['swindows']),
         ','.join('%s:%s' % ('None' if a is None else hx(a), 'None' if b is None else hx(b))
                  for a, b in q['iters']),
         ','.join(str(n) for n in q['linv']))
@@ -217,6 +219,10 @@ def qall_segments(api, q, kind):
             segs.append('undoLog(%d,%d)=%s' % (f, l, f_entries(api.undoLog(f, l))))
         for u, f, l in q['fwindows']:
             segs.append('undoLogF(%s,%d,%d)=%s' % (fmt_bytes(u), f, l, f_entries(api.undoLogF(u, f, l))))
+        for u, d, e, f, l in q['swindows']:
+            segs.append('undoInfoS(%s,%s,%s,%d,%d)=%s' % (
+                '*' if u is None else fmt_bytes(u), '*' if d is None else fmt_bytes(d),
+                '*' if e is None else fmt_bytes(e), f, l, f_entries(api.undoInfoS(u, d, e, f, l))))
     for a, b in q['iters']:
         segs.append('iterator(%s,%s)=%s' % ('None' if a is None else hx(a), 'None' if b is None else hx(b),
                                             f_txns(api.iterator(a, b))))
@@ -263,6 +269,9 @@ class OracleAPI:
 
     def undoLogF(self, u, f, l):
         return self.h.undoLogF(u, f, l)
+
+    def undoInfoS(self, u, d, e, f, l):
+        return self.h.undoInfoS(u, d, e, f, l)
 
     def iterator(self, a, b):
         return [(t['tid'], t['status'], t['u'], t['d'], t['e'],
@@ -515,6 +524,23 @@ class RealFS(RealBase):
             return r
         return guard(f)
 
+    def undoInfoS(self, u, d, e, first, last):
+        """undoInfo with a specification of one to three keys: user_name, description and the
+        extension key 'x' (e = extension bytes, the pickle of {'x': value})"""
+        def f():
+            spec = {}
+            if u is not None:
+                spec['user_name'] = u
+            if d is not None:
+                spec['description'] = d
+            if e is not None:
+                spec['x'] = pickle.loads(e)['x']
+            return [(u64(base64.decodebytes(x['id'] + b'\n')), x['user_name'], x['description'],
+                     self.ext_of({k: v for k, v in x.items()
+                                  if k not in ('time', 'user_name', 'description', 'id', 'size')}), x['size'])
+                    for x in self.st.undoInfo(first, last, spec)]
+        return guard(f)
+
     def lastInvalidations(self, n):
         return guard(lambda: [(u64(t), [u64(o) for o in os_]) for t, os_ in self.st.lastInvalidations(n)])
 
@@ -609,6 +635,18 @@ def query_args(h, rng_q, full, extra_oids):
     users = users[:3 if full else 1] + [b'\x7fnobody']
     fw = [(0, 20), (0, 1), (1, 3), (0, 2), (2, 5)] if full else [(0, 2), (1, 3)]
     fwindows = [(u, f, l) for u in users for f, l in fw]
+    # undoInfo specifications with one to three keys, taken from committed transactions and MIXED
+    # between them (so that transactions match some but not all of the requested metadata)
+    recent = h.txns[::-1][:6 if full else 3]
+    specs = []
+    for i, t in enumerate(recent):
+        o = recent[(i + 1) % len(recent)]
+        for sp in ((t['u'], t['d'], None), (t['u'], o['d'], None), (t['u'], None, t['e'] or None),
+                   (o['u'], t['d'], t['e'] or None), (None, t['d'], o['e'] or None)):
+            if sum(x is not None for x in sp) >= 2 and sp not in specs:
+                specs.append(sp)
+    specs = specs[:10 if full else 3]
+    swindows = [sp + w for sp in specs for w in ([(0, 20), (0, 2), (1, 3)] if full else [(0, 20), (1, 3)])]
     if full:
         bset = {0, MAXTID}
         for t in tids:
@@ -636,7 +674,7 @@ def query_args(h, rng_q, full, extra_oids):
             iters += [(tids[-1], None), (None, max(tids[-1] - 1, 0))]
         linv = [1, 3]
     return dict(oids=oids, bounds=bounds, serials=serials, hsizes=hsizes, windows=windows, iters=iters,
-                linv=linv, fwindows=fwindows)
+                linv=linv, fwindows=fwindows, swindows=swindows)
 
 
 class Run:
